@@ -4,34 +4,86 @@ fragment, plus simple arguments.  Syntax (`nested_parses`) by induction on the d
 alternatives of `allargs`; semantics (`nested_exec`) by induction on the depth through the action
 machine with the call stack.  Core Lean only.
 -/
-import PV.C26.LemmasPql
+import PV.C26.LemmasFwd
 namespace PV.C26
 open Gen
 
-/-- The nested fragment, by depth: a generic name, children that are again in the fragment,
-simple arguments with sorted field-name keys, and at least one child or argument. -/
+/-- The nested fragment, by depth: a name other than `ClearRow`/`Store`/`Range`, children that are
+again in the fragment, arguments with sorted keys (field names or reserved names) whose values are
+simple or again a CALL of the fragment (`key=Inner(..)`), and at least one child or argument. -/
 def Nested (isPrint : Char → Bool) : Nat → Call → Prop
   | 0, _ => False
   | d + 1, .mk name args children =>
-    IdentName name ∧ name ∉ specialKws ∧ (args ≠ [] ∨ children ≠ []) ∧
-      (∀ kv ∈ args, FieldName kv.1 ∧ SimpleVal isPrint kv.2) ∧ SortedKeys args ∧
-      ∀ ch ∈ children, Nested isPrint d ch
+    IdentName name ∧ (NameOk name ∧ RangeArgs name args children) ∧ (args ≠ [] ∨ children ≠ []) ∧
+      (∀ kv ∈ args, KeyName kv.1 ∧ (SimpleVal isPrint kv.2 ∨ ∃ c, kv.2 = .call c ∧ Nested isPrint d c)) ∧
+      SortedKeys args ∧ ∀ ch ∈ children, Nested isPrint d ch
 
-/-- The events of a printed call, by depth. -/
-def evCallD (isPrint : Char → Bool) : Nat → Call → List Ev
+/-- An argument value of a call of depth `d + 1`. -/
+def ArgOk (isPrint : Char → Bool) (d : Nat) (v : Val) : Prop :=
+  SimpleVal isPrint v ∨ ∃ c, v = .call c ∧ Nested isPrint d c
+
+/-- The events of an argument, given the events of the body of a call value. -/
+def evArgWith (isPrint : Char → Bool) (body : Call → List Ev) (kv : Key × Val) : List Ev :=
+  match kv.2 with
+  | .call c => [.text kv.1, .act (.addField .text)] ++ (body c ++ [.act (.addVal .endCall)])
+  | _ => evArg isPrint kv
+
+/-- The events of a printed call up to (not including) its closing action, by depth. -/
+def evBodyD (isPrint : Char → Bool) : Nat → Call → List Ev
   | 0, _ => []
   | d + 1, .mk name args children =>
-    [.text name, .act (.startCall .text)] ++ children.flatMap (evCallD isPrint d) ++
-      args.flatMap (evArg isPrint) ++ [.act .endCall]
+    [.text name, .act (.startCall .text)] ++ children.flatMap (fun ch => evBodyD isPrint d ch ++ [.act .endCall]) ++
+      args.flatMap (evArgWith isPrint (evBodyD isPrint d))
+
+/-- The events of a printed call (child or top level): closed by `endCall`. -/
+def evCallD (isPrint : Char → Bool) (d : Nat) (c : Call) : List Ev := evBodyD isPrint d c ++ [.act .endCall]
+
+/-- The events of a printed call read as a VALUE: closed by `addVal(endCall())`. -/
+def evCallV (isPrint : Char → Bool) (d : Nat) (c : Call) : List Ev :=
+  evBodyD isPrint d c ++ [.act (.addVal .endCall)]
+
+/-- The events of a printed argument at depth `d + 1`. -/
+def evArgD (isPrint : Char → Bool) (d : Nat) (kv : Key × Val) : List Ev :=
+  match kv.2 with
+  | .call c => [.text kv.1, .act (.addField .text)] ++ evCallV isPrint d c
+  | _ => evArg isPrint kv
+
+theorem evArgWith_eq (isPrint : Char → Bool) (d : Nat) (kv : Key × Val) :
+    evArgWith isPrint (evBodyD isPrint d) kv = evArgD isPrint d kv := by
+  obtain ⟨k, v⟩ := kv
+  cases v <;> rfl
+
+theorem evCallD_succ (isPrint : Char → Bool) (d : Nat) (name : List Char) (args : List (Key × Val))
+    (children : List Call) :
+    evCallD isPrint (d + 1) (.mk name args children) =
+      [.text name, .act (.startCall .text)] ++ children.flatMap (evCallD isPrint d) ++
+        args.flatMap (evArgD isPrint d) ++ [.act .endCall] := by
+  have e : (evArgWith isPrint (evBodyD isPrint d)) = evArgD isPrint d := funext (evArgWith_eq isPrint d)
+  simp only [evCallD, evBodyD, e]
+  rfl
+
+theorem evCallV_succ (isPrint : Char → Bool) (d : Nat) (name : List Char) (args : List (Key × Val))
+    (children : List Call) :
+    evCallV isPrint (d + 1) (.mk name args children) =
+      [.text name, .act (.startCall .text)] ++ children.flatMap (evCallD isPrint d) ++
+        args.flatMap (evArgD isPrint d) ++ [.act (.addVal .endCall)] := by
+  have e : (evArgWith isPrint (evBodyD isPrint d)) = evArgD isPrint d := funext (evArgWith_eq isPrint d)
+  simp only [evCallV, evBodyD, e]
+  rfl
+
+theorem evArgD_simple (isPrint : Char → Bool) (d : Nat) (kv : Key × Val) (h : SimpleVal isPrint kv.2) :
+    evArgD isPrint d kv = evArg isPrint kv := by
+  obtain ⟨k, v⟩ := kv
+  cases v <;> first | rfl | exact absurd h (by simp [SimpleVal])
 
 /-- `Call.String` of a call of the fragment. -/
 theorem fmtCall_nested (isPrint : Char → Bool) (name : List Char) (args : List (Key × Val)) (children : List Call)
-    (hn : name ≠ []) (h : ∀ kv ∈ args, SimpleVal isPrint kv.2) :
+    (hn : name ≠ []) :
     fmtCall isPrint (.mk name args children) =
       name ++ '(' :: (joinWith [',', ' '] (fmtCalls isPrint children) ++
         ((if children ≠ [] ∧ args ≠ [] then [',', ' '] else []) ++
           (joinWith [',', ' '] (args.map (argText isPrint)) ++ [')']))) := by
-  simp [fmtCall, hn, fmtArgs_simple isPrint args h]
+  simp [fmtCall, hn, fmtArgs_all isPrint args]
 
 theorem fmtCalls_map (isPrint : Char → Bool) (cs : List Call) :
     fmtCalls isPrint cs = cs.map (fmtCall isPrint) := by
@@ -106,32 +158,52 @@ theorem identName_noWs {name : List Char} (hn : IdentName name) (s : List Char) 
     simp only [isWs, Bool.or_eq_true, decide_eq_true_eq] at hw
     rcases hw with (rfl | rfl) | rfl <;> simp [isAlpha, isLower, isUpper] at hc
 
+/-- A printed argument of a nested call is read by `arg` whatever delimiter follows; for a call value
+this needs the item-level reading of the inner call (`hitem`, the induction hypothesis). -/
+theorem pargD_ok (isPrint : Char → Bool) (hnl : isPrint '\n' = false) (d : Nat) (kv : Key × Val) (hk : KeyName kv.1) (hv : ArgOk isPrint d kv.2)
+    (hitem : ∀ c, Nested isPrint d c → (NoWs (fmtCall isPrint c) ∧ fmtCall isPrint c ≠ []) ∧
+      ∀ r, NoWs r → P (.ref R.item) (fmtCall isPrint c ++ r) r (evCallV isPrint d c)) :
+    PArg.Ok ⟨argText isPrint kv, evArgD isPrint d kv⟩ := by
+  rcases hv with hv | ⟨c, hc, hn⟩
+  · rw [evArgD_simple isPrint d kv hv]; exact parg_ok isPrint hnl kv hk hv
+  · obtain ⟨k, v⟩ := kv
+    simp only at hc
+    subst hc
+    obtain ⟨⟨hnw, hne⟩, hp⟩ := hitem c hn
+    refine ⟨by simp only [argText]; exact hk.noWs _, by simp [argText], ?_⟩
+    intro dl r hd
+    have hdws : NoWs (dl :: r) := by rcases hd with rfl | rfl <;> simp [NoWs, isWs]
+    have := arg_eq_ok (vs := fmtCall isPrint c ++ dl :: r) hk (noWs_append hnw hne) (value_of_item (hp (dl :: r) hdws))
+    simpa [argText, evArgD, fmtVal, List.append_assoc] using this
+
 /-- The printed arguments: `args` reads them up to the closing parenthesis. -/
-theorem args_text_ok (isPrint : Char → Bool) (args : List (Key × Val)) (hne : args ≠ [])
-    (hargs : ∀ kv ∈ args, FieldName kv.1 ∧ SimpleVal isPrint kv.2) (r : List Char) :
+theorem args_text_ok (isPrint : Char → Bool) (hnl : isPrint '\n' = false) (d : Nat) (args : List (Key × Val)) (hne : args ≠ [])
+    (hargs : ∀ kv ∈ args, KeyName kv.1 ∧ ArgOk isPrint d kv.2)
+    (hitem : ∀ c, Nested isPrint d c → (NoWs (fmtCall isPrint c) ∧ fmtCall isPrint c ≠ []) ∧
+      ∀ r, NoWs r → P (.ref R.item) (fmtCall isPrint c ++ r) r (evCallV isPrint d c)) (r : List Char) :
     P (.ref R.args) (joinWith [',', ' '] (args.map (argText isPrint)) ++ ')' :: r) (')' :: r)
-      (args.flatMap (evArg isPrint)) := by
-  let pargs : List PArg := args.map (fun kv => ⟨argText isPrint kv, evArg isPrint kv⟩)
+      (args.flatMap (evArgD isPrint d)) := by
+  let pargs : List PArg := args.map (fun kv => ⟨argText isPrint kv, evArgD isPrint d kv⟩)
   have hpok : ∀ a ∈ pargs, a.Ok := by
     intro a ha
     simp only [pargs, List.mem_map] at ha
     obtain ⟨kv, hkv, rfl⟩ := ha
-    exact parg_ok isPrint kv (hargs kv hkv).1 (hargs kv hkv).2
+    exact pargD_ok isPrint hnl d kv (hargs kv hkv).1 (hargs kv hkv).2 hitem
   have hpne : pargs ≠ [] := by simpa [pargs] using hne
   have hargsP := args_ok pargs hpne hpok r
   have htext : pargs.map (·.text) = args.map (argText isPrint) := by simp [pargs]
-  have hevs : pargs.flatMap (·.evs) = args.flatMap (evArg isPrint) := by simp [pargs, List.flatMap_map]
+  have hevs : pargs.flatMap (·.evs) = args.flatMap (evArgD isPrint d) := by simp [pargs, List.flatMap_map]
   rw [htext, hevs] at hargsP
   exact hargsP
 
 /-- `Call` does not match at the first printed argument. -/
 theorem call_fails_args (isPrint : Char → Bool) (args : List (Key × Val)) (hne : args ≠ [])
-    (hargs : ∀ kv ∈ args, FieldName kv.1 ∧ SimpleVal isPrint kv.2) (s : List Char) :
+    (hargs : ∀ kv ∈ args, KeyName kv.1) (s : List Char) :
     F (.ref R.Call) (joinWith [',', ' '] (args.map (argText isPrint)) ++ s) := by
   cases args with
   | nil => exact absurd rfl hne
   | cons a rest =>
-    obtain ⟨hk, _⟩ := hargs a (by simp)
+    have hk := hargs a (by simp)
     obtain ⟨x, tl, hx, hxe⟩ := argText_head isPrint a
     have hx1 : isAlnum x = false := by rcases hxe with rfl | rfl <;> decide
     have hx2 : x ≠ '(' := by rcases hxe with rfl | rfl <;> decide
@@ -140,16 +212,26 @@ theorem call_fails_args (isPrint : Char → Bool) (args : List (Key × Val)) (hn
     exact call_fails_key a.1 _ x hk hx1 hx2
 
 theorem args_text_noWs (isPrint : Char → Bool) (args : List (Key × Val)) (hne : args ≠ [])
-    (hargs : ∀ kv ∈ args, FieldName kv.1 ∧ SimpleVal isPrint kv.2) (s : List Char) :
+    (hargs : ∀ kv ∈ args, KeyName kv.1) (s : List Char) :
     NoWs (joinWith [',', ' '] (args.map (argText isPrint)) ++ s) := by
   cases args with
   | nil => exact absurd rfl hne
   | cons a rest =>
-    obtain ⟨⟨c, cs, hk, hc, hcs⟩, _⟩ := hargs a (by simp)
+    have hk := hargs a (by simp)
     obtain ⟨x, tl, hx, _⟩ := argText_head isPrint a
-    rw [List.map_cons, joinWith_cons, hx, hk]
-    simp only [List.append_assoc, List.cons_append]
-    exact alpha_noWs hc _
+    rw [List.map_cons, joinWith_cons, hx]
+    simp only [List.append_assoc]
+    exact hk.noWs _
+
+theorem firstKey_of_argD (isPrint : Char → Bool) (d : Nat) (kv : Key × Val) (s : List Char) (hk : KeyName kv.1)
+    (hv : ArgOk isPrint d kv.2) : FirstKey (argText isPrint kv ++ s) := by
+  rcases hv with hv | ⟨c, hc, _⟩
+  · exact firstKey_of_arg isPrint kv s hk hv
+  · obtain ⟨k, v⟩ := kv
+    simp only at hc
+    subst hc
+    refine ⟨k, '=', fmtCall isPrint c ++ s, by simp [argText, fmtVal], hk, by decide, by decide,
+      comma_fails (by simp [NoWs, isWs]) (by simp [NotHead])⟩
 
 
 theorem nested_text (isPrint : Char → Bool) (d : Nat) (c : Call) (h : Nested isPrint d c) :
@@ -160,14 +242,106 @@ theorem nested_text (isPrint : Char → Bool) (d : Nat) (c : Call) (h : Nested i
     obtain ⟨name, args, children⟩ := c
     obtain ⟨hn, _, _, hargs, _, _⟩ := h
     have hname : name ≠ [] := by obtain ⟨c, cs, rfl, _, _⟩ := hn; simp
-    rw [fmtCall_nested isPrint name args children hname (fun kv hkv => (hargs kv hkv).2)]
+    rw [fmtCall_nested isPrint name args children hname]
     obtain ⟨c, cs, rfl, hc, _⟩ := hn
     exact ⟨alpha_noWs hc _, by simp⟩
 
+/-! ### A printed call as an argument value (`item` alternative 7) -/
+
+/-- A keyword alternative of `item` fails on `name(..`: the keyword is not a prefix, or what follows
+it is a letter, a digit or `(`, where the lookahead `&(comma / sp close)` fails. -/
+theorem kw_alt_fails (kw : List Char) (a : Act) (name rest : List Char) (hn : IdentName name)
+    (hkw : kw ≠ [] ∧ ∀ c ∈ kw, isAlpha c = true) :
+    F (.seq (lit kw) (.seq (.andP (.alt (.ref R.comma) (.seq (.ref R.sp) (.ref R.close)))) (.act a)))
+      (name ++ '(' :: rest) := by
+  by_cases hp : kw <+: name ++ '(' :: rest
+  · obtain ⟨t, ht⟩ := hp
+    have hxkw : '(' ∉ kw := fun hmem => by
+      have := hkw.2 _ hmem; revert this; decide
+    obtain ⟨u, hu1, hu2⟩ := append_eq_split kw t name '(' rest hxkw ht
+    have hhead : ∃ y ys, t = y :: ys ∧ isWs y = false ∧ y ≠ ',' ∧ y ≠ ')' := by
+      cases u with
+      | nil => exact ⟨'(', rest, by simpa using hu2, by decide, by decide, by decide⟩
+      | cons y ys =>
+        have hy : isAlnum y = true := identName_alnum hn y (by rw [hu1]; simp)
+        refine ⟨y, ys ++ '(' :: rest, by simpa using hu2, ?_, ?_, ?_⟩
+        · cases hw : isWs y with
+          | false => rfl
+          | true =>
+            simp only [isWs, Bool.or_eq_true, decide_eq_true_eq] at hw
+            rcases hw with (rfl | rfl) | rfl <;> simp [isAlnum, isAlpha, isLower, isUpper, isDigit] at hy
+        · intro e; subst e; simp [isAlnum, isAlpha, isLower, isUpper, isDigit] at hy
+        · intro e; subst e; simp [isAlnum, isAlpha, isLower, isUpper, isDigit] at hy
+    obtain ⟨y, ys, hty, hyw, hyc, hyp⟩ := hhead
+    rw [← ht, hty]
+    have hnw : NoWs (y :: ys) := by simpa [NoWs] using hyw
+    refine Fails.seq_right (Parses.lit kw _) (Fails.seq_left (Fails.andP (Fails.alt
+      (comma_fails hnw (by simpa [NotHead] using hyc))
+      (Fails.seq_right (sp_nil hnw) (close_fails (by simpa [NotHead] using hyp))))))
+  · exact Fails.seq_left (Fails.lit kw _ hkw.1 hp)
+
+/-- `item` reads `name(body)` as a call value: the first six alternatives fail on a text that begins
+with an identifier followed by `(`, the call alternative needs no condition on the name. -/
+theorem item_call_ok (name atext r : List Char) (evs : List Ev) (hn : IdentName name)
+    (hws : NoWs (atext ++ ')' :: r)) (hr : NoWs r)
+    (ha : P (.ref R.allargs) (atext ++ ')' :: r) (')' :: r) evs) :
+    P (.ref R.item) (name ++ '(' :: (atext ++ ')' :: r)) r
+      ([.text name, .act (.startCall .text)] ++ evs ++ [.act (.addVal .endCall)]) := by
+  obtain ⟨c, cs, hname, hc, hcs⟩ := hn
+  have hn : IdentName name := ⟨c, cs, hname, hc, hcs⟩
+  have hcd : isDigit c = false ∧ c ≠ '-' ∧ c ≠ '.' ∧ c ≠ '"' ∧ c ≠ '\'' := by
+    refine ⟨?_, ?_, ?_, ?_, ?_⟩
+    · cases hd : isDigit c with
+      | false => rfl
+      | true =>
+        simp only [isDigit, Bool.and_eq_true, decide_eq_true_eq] at hd
+        simp only [isAlpha, isLower, isUpper, Bool.or_eq_true, Bool.and_eq_true, decide_eq_true_eq] at hc
+        rcases hc with ⟨h1, _⟩ | ⟨h1, _⟩
+        · exact absurd (Char.le_trans h1 hd.2) (by decide)
+        · exact absurd (Char.le_trans h1 hd.2) (by decide)
+    all_goals (intro e; subst e; simp [isAlpha, isLower, isUpper] at hc)
+  have htext : name ++ '(' :: (atext ++ ')' :: r) = c :: (cs ++ '(' :: (atext ++ ')' :: r)) := by
+    rw [hname]; rfl
+  apply Parses.ref
+  show P e_item _ _ _
+  simp only [e_item, alts, seqs]
+  refine Parses.alt_right (kw_alt_fails _ _ name _ hn ⟨by simp, by decide⟩)
+    (Parses.alt_right (kw_alt_fails _ _ name _ hn ⟨by simp, by decide⟩)
+    (Parses.alt_right (kw_alt_fails _ _ name _ hn ⟨by simp, by decide⟩)
+    (Parses.alt_right (Fails.seq_left ?ts)
+    (Parses.alt_right (Fails.seq_left (Fails.cap ?n1))
+    (Parses.alt_right (Fails.seq_left (Fails.cap ?n2))
+    (Parses.alt_left ?call))))))
+  case ts =>
+    rw [htext]
+    exact tsfmt_fails hcd.2.2.2.1 hcd.2.2.2.2 (by simp [tsPrefix5, hcd.1])
+  case n1 =>
+    rw [htext]
+    refine Fails.seq_right (Parses.opt_none (Fails.chr_ne _ hcd.2.1)) (Fails.seq_left ?_)
+    simp only [plus]
+    exact Fails.seq_left (digit_fails _ (by simpa [NotHead] using hcd.1))
+  case n2 =>
+    rw [htext]
+    exact Fails.seq_right (Parses.opt_none (Fails.chr_ne _ hcd.2.1))
+      (Fails.seq_left (lit_fails_head _ c _ ⟨_, _, rfl, fun e => hcd.2.2.1 e.symm⟩))
+  case call =>
+    have h1 : P (.cap (.ref R.IDENT)) (name ++ '(' :: (atext ++ ')' :: r)) ('(' :: (atext ++ ')' :: r))
+        ([] ++ [.text name]) :=
+      Parses.cap_prefix (ident_ok hn (by simp [NotHead, isAlnum, isAlpha, isLower, isUpper, isDigit]))
+    have h2 := Parses.act (rule := Gen.rule) (.startCall .text) ('(' :: (atext ++ ')' :: r))
+    have h3 := open_ok hws
+    have h4 : P (.opt (.ref R.comma)) (')' :: r) (')' :: r) [] :=
+      Parses.opt_none (comma_fails (by simp [NoWs, isWs]) (by simp [NotHead]))
+    have h5 := close_ok hr
+    have h6 := Parses.act (rule := Gen.rule) (.addVal .endCall) r
+    have h := Parses.seq h1 (Parses.seq h2 (Parses.seq h3 (Parses.seq ha (Parses.seq h4 (Parses.seq h5 h6)))))
+    simpa using h
+
 /-- Syntax, nested: the grammar reads a printed call of the fragment, whatever follows it, and
 records `evCallD`. -/
-theorem nested_parses (isPrint : Char → Bool) : ∀ (d : Nat) (c : Call), Nested isPrint d c →
-    ∀ r, NoWs r → P (.ref R.Call) (fmtCall isPrint c ++ r) r (evCallD isPrint d c) := by
+theorem nested_parses2 (isPrint : Char → Bool) (hnl : isPrint '\n' = false) : ∀ (d : Nat) (c : Call), Nested isPrint d c →
+    ∀ r, NoWs r → P (.ref R.Call) (fmtCall isPrint c ++ r) r (evCallD isPrint d c) ∧
+      P (.ref R.item) (fmtCall isPrint c ++ r) r (evCallV isPrint d c) := by
   intro d
   induction d with
   | zero => intro c h; exact absurd h (by simp [Nested])
@@ -176,16 +350,41 @@ theorem nested_parses (isPrint : Char → Bool) : ∀ (d : Nat) (c : Call), Nest
     obtain ⟨name, args, children⟩ := c
     obtain ⟨hn, hsp, hne, hargs, hsorted, hch⟩ := h
     have hname : name ≠ [] := by obtain ⟨c, cs, rfl, _, _⟩ := hn; simp
-    rw [fmtCall_nested isPrint name args children hname (fun kv hkv => (hargs kv hkv).2), fmtCalls_map]
-    simp only [evCallD]
+    rw [fmtCall_nested isPrint name args children hname, fmtCalls_map]
+    rw [evCallD_succ, evCallV_succ]
+    have hkeys : ∀ kv ∈ args, KeyName kv.1 := fun kv hkv => (hargs kv hkv).1
+    have hitemIH : ∀ c, Nested isPrint d c → (NoWs (fmtCall isPrint c) ∧ fmtCall isPrint c ≠ []) ∧
+        ∀ r, NoWs r → P (.ref R.item) (fmtCall isPrint c ++ r) r (evCallV isPrint d c) :=
+      fun c hc => ⟨nested_text isPrint d c hc, fun r hr => (ih c hc r hr).2⟩
     cases children with
     | nil =>
       have hane : args ≠ [] := by rcases hne with h | h; exact h; exact absurd rfl h
-      have hall := allargs_of_args (call_fails_args isPrint args hane hargs (')' :: r))
-        (args_text_ok isPrint args hane hargs r)
-      have hcall := call_generic_ok name (joinWith [',', ' '] (args.map (argText isPrint))) r _ hn hsp
-        (args_text_noWs isPrint args hane hargs _) hr hall
-      simpa [joinWith, List.append_assoc] using hcall
+      have hall := allargs_of_args (call_fails_args isPrint args hane hkeys (')' :: r))
+        (args_text_ok isPrint hnl d args hane hargs hitemIH r)
+      have hfree : SpecialFree name (joinWith [',', ' '] (args.map (argText isPrint)) ++ ')' :: r) := by
+        rcases nameOk_cases hsp.1 with h | h | h
+        · exact Or.inl h
+        · refine Or.inr (Or.inl ⟨h, ?_⟩)
+          cases args with
+          | nil => exact absurd rfl hane
+          | cons a rest =>
+            rw [List.map_cons, joinWith_cons, List.append_assoc]
+            exact firstKey_of_argD isPrint d a _ (hargs a (by simp)).1 (hargs a (by simp)).2
+        · refine Or.inr (Or.inr ⟨h, ?_⟩)
+          rcases hsp.2 h with hc | ⟨k, op, v, rest, rfl⟩
+          · exact absurd rfl hc
+          · rw [List.map_cons, joinWith_cons, List.append_assoc]
+            have ha := hargs (k, .cond op v) (by simp)
+            have hop : op ∈ cmpOps := by
+              rcases ha.2 with hs | ⟨c, hc, _⟩
+              · exact cond_op_of_simple isPrint op v hs
+              · exact absurd hc (by simp)
+            exact rangeBody_of_cond isPrint k op v _ ha.1 hop
+      have hcall := call_generic_ok name (joinWith [',', ' '] (args.map (argText isPrint))) r _ hn hfree
+        (args_text_noWs isPrint args hane hkeys _) hr hall
+      have hitem := item_call_ok name (joinWith [',', ' '] (args.map (argText isPrint))) r _ hn
+        (args_text_noWs isPrint args hane hkeys _) hr hall
+      exact ⟨by simpa [joinWith, List.append_assoc] using hcall, by simpa [joinWith, List.append_assoc] using hitem⟩
     | cons ch chs =>
       let pcs : List PCall := (ch :: chs).map (fun x => ⟨fmtCall isPrint x, evCallD isPrint d x⟩)
       have hpok : ∀ x ∈ pcs, x.Ok := by
@@ -193,10 +392,29 @@ theorem nested_parses (isPrint : Char → Bool) : ∀ (d : Nat) (c : Call), Nest
         simp only [pcs, List.mem_map] at hx
         obtain ⟨y, hy, rfl⟩ := hx
         have hny := hch y hy
-        exact ⟨(nested_text isPrint d y hny).1, (nested_text isPrint d y hny).2, ih y hny⟩
+        exact ⟨(nested_text isPrint d y hny).1, (nested_text isPrint d y hny).2, fun r hr => (ih y hny r hr).1⟩
       have htexts : pcs.map (·.text) = (ch :: chs).map (fmtCall isPrint) := by simp [pcs]
       have hevs : pcs.flatMap (·.evs) = (ch :: chs).flatMap (evCallD isPrint d) := by
         simp [pcs, List.flatMap_map]
+      have hchfree : ∀ T : List Char, SpecialFree name (joinWith [',', ' '] ((ch :: chs).map (fmtCall isPrint)) ++ T) := by
+        intro T
+        obtain ⟨cn, cargs, cch⟩ := ch
+        have hcn := hch (.mk cn cargs cch) (by simp)
+        have hcn' : IdentName cn := by
+          cases d with
+          | zero => exact absurd hcn (by simp [Nested])
+          | succ d' => exact hcn.1
+        have hcne : cn ≠ [] := by obtain ⟨c, cs, rfl, _, _⟩ := hcn'; simp
+        rcases nameOk_cases hsp.1 with h | h | h
+        · exact Or.inl h
+        · refine Or.inr (Or.inl ⟨h, ?_⟩)
+          rw [List.map_cons, joinWith_cons, fmtCall_nested isPrint cn cargs cch hcne]
+          simp only [List.append_assoc, List.cons_append]
+          exact firstKey_of_call cn _ hcn'
+        · refine Or.inr (Or.inr ⟨h, ?_⟩)
+          rw [List.map_cons, joinWith_cons, fmtCall_nested isPrint cn cargs cch hcne]
+          simp only [List.append_assoc, List.cons_append]
+          exact rangeBody_of_call cn _ hcn'
       by_cases hargs0 : args = []
       · subst hargs0
         have hcf : F (.ref R.comma) (')' :: r) := comma_fails (by simp [NoWs, isWs]) (by simp [NotHead])
@@ -213,24 +431,25 @@ theorem nested_parses (isPrint : Char → Bool) : ∀ (d : Nat) (c : Call), Nest
             (nested_text isPrint d ch (hch ch (by simp))).2) (by
               have := (nested_text isPrint d ch (hch ch (by simp))).2
               intro e; simp at e; exact this e.1)
-        have hcall := call_generic_ok name _ r _ hn hsp hws hr hall'
-        simpa [joinWith, List.append_assoc] using hcall
-      · have hnwA := args_text_noWs isPrint args hargs0 hargs (')' :: r)
+        have hcall := call_generic_ok name _ r _ hn (hchfree _) hws hr hall'
+        have hitem := item_call_ok name _ r _ hn hws hr hall'
+        exact ⟨by simpa [joinWith, List.append_assoc] using hcall, by simpa [joinWith, List.append_assoc] using hitem⟩
+      · have hnwA := args_text_noWs isPrint args hargs0 hkeys (')' :: r)
         have hcomma := comma_sp hnwA
         have hopt : P (.opt (.seq (.ref R.comma) (.ref R.args)))
             (',' :: ' ' :: (joinWith [',', ' '] (args.map (argText isPrint)) ++ ')' :: r)) (')' :: r)
-            ([] ++ args.flatMap (evArg isPrint)) :=
-          Parses.opt_some (Parses.seq hcomma (args_text_ok isPrint args hargs0 hargs r))
+            ([] ++ args.flatMap (evArgD isPrint d)) :=
+          Parses.opt_some (Parses.seq hcomma (args_text_ok isPrint hnl d args hargs0 hargs hitemIH r))
         have hfail : F (.seq (.ref R.comma) (.ref R.Call))
             (',' :: ' ' :: (joinWith [',', ' '] (args.map (argText isPrint)) ++ ')' :: r)) :=
-          Fails.seq_right hcomma (call_fails_args isPrint args hargs0 hargs (')' :: r))
+          Fails.seq_right hcomma (call_fails_args isPrint args hargs0 hkeys (')' :: r))
         have hall := allargs_children ⟨fmtCall isPrint ch, evCallD isPrint d ch⟩
           (chs.map (fun x => ⟨fmtCall isPrint x, evCallD isPrint d x⟩)) (by simpa [pcs] using hpok)
           _ (')' :: r) _ (by simp [NoWs, isWs]) hfail hopt
         have hall' : P (.ref R.allargs)
             ((joinWith [',', ' '] ((ch :: chs).map (fmtCall isPrint)) ++
               (',' :: ' ' :: joinWith [',', ' '] (args.map (argText isPrint)))) ++ ')' :: r)
-            (')' :: r) ((ch :: chs).flatMap (evCallD isPrint d) ++ args.flatMap (evArg isPrint)) := by
+            (')' :: r) ((ch :: chs).flatMap (evCallD isPrint d) ++ args.flatMap (evArgD isPrint d)) := by
           simpa [List.flatMap_map, List.map_map, Function.comp_def, List.append_assoc] using hall
         have hws : NoWs ((joinWith [',', ' '] ((ch :: chs).map (fmtCall isPrint)) ++
               (',' :: ' ' :: joinWith [',', ' '] (args.map (argText isPrint)))) ++ ')' :: r) := by
@@ -238,9 +457,14 @@ theorem nested_parses (isPrint : Char → Bool) : ∀ (d : Nat) (c : Call), Nest
           simp only [List.append_assoc]
           exact noWs_append (nested_text isPrint d ch (hch ch (by simp))).1
             (nested_text isPrint d ch (hch ch (by simp))).2
-        have hcall := call_generic_ok name _ r _ hn hsp hws hr hall'
-        simpa [hargs0, List.append_assoc] using hcall
+        have hcall := call_generic_ok name _ r _ hn (by simpa [List.append_assoc] using hchfree _) hws hr hall'
+        have hitem := item_call_ok name _ r _ hn hws hr hall'
+        exact ⟨by simpa [hargs0, List.append_assoc] using hcall, by simpa [hargs0, List.append_assoc] using hitem⟩
 
+
+theorem nested_parses (isPrint : Char → Bool) (hnl : isPrint '\n' = false) (d : Nat) (c : Call) (h : Nested isPrint d c)
+    (r : List Char) (hr : NoWs r) : P (.ref R.Call) (fmtCall isPrint c ++ r) r (evCallD isPrint d c) :=
+  (nested_parses2 isPrint hnl d c h r hr).1
 
 /-- What executing the events of a call does to the machine: the finished call is linked where
 `startCall` decided (top level, or child of the enclosing call). -/
@@ -249,7 +473,11 @@ def ExecSpec (isPrint : Char → Bool) (d : Nat) (c : Call) : Prop :=
     (q.stack = [] → ∃ t, exec (evCallD isPrint d c ++ evs) q =
         exec evs { q with calls := q.calls ++ [c], text := t }) ∧
     (∀ p rest, q.stack = p :: rest → p.lastField = [] → ∃ t, exec (evCallD isPrint d c ++ evs) q =
-        exec evs { q with stack := { p with children := p.children ++ [c] } :: rest, text := t })
+        exec evs { q with stack := { p with children := p.children ++ [c] } :: rest, text := t }) ∧
+    (∀ p rest, q.stack = p :: rest → p.lastField ≠ [] → p.inList = false → p.lastCond = .ILLEGAL →
+      lookup p.lastField p.args = none → ∃ t, exec (evCallV isPrint d c ++ evs) q =
+        exec evs { q with stack := { p with args := insert p.lastField (.call c) p.args, lastField := [],
+                                            lastCond := .ILLEGAL } :: rest, text := t })
 
 /-- Executing the events of a list of children appends them to the enclosing element. -/
 theorem exec_children (isPrint : Char → Bool) (d : Nat) (children : List Call)
@@ -264,7 +492,7 @@ theorem exec_children (isPrint : Char → Bool) (d : Nat) (children : List Call)
     congr 1
     cases q; cases e; simp_all
   | cons ch chs ih =>
-    obtain ⟨t1, h1⟩ := ((hch ch (by simp)) q (chs.flatMap (evCallD isPrint d) ++ evs)).2 e rest hq he
+    obtain ⟨t1, h1⟩ := ((hch ch (by simp)) q (chs.flatMap (evCallD isPrint d) ++ evs)).2.1 e rest hq he
     simp only [List.flatMap_cons, List.append_assoc]
     rw [h1]
     obtain ⟨t2, h2⟩ := ih (fun x hx => hch x (by simp [hx]))
@@ -286,54 +514,94 @@ theorem nested_exec (isPrint : Char → Bool) (hnl : isPrint '\n' = false) :
     obtain ⟨name, args, children⟩ := c
     obtain ⟨hn, hsp, hne, hargs, hsorted, hch⟩ := h
     have hchs : ∀ ch ∈ children, ExecSpec isPrint d ch := fun ch hm => ih ch (hch ch hm)
+    have hstep : ∀ kv ∈ args, ArgStep (evArgD isPrint d) kv := by
+      intro kv hkv q e rest evs hq he hl
+      obtain ⟨hk, hv⟩ := hargs kv hkv
+      rcases hv with hv | ⟨c, hc, hn⟩
+      · rw [evArgD_simple isPrint d kv hv]
+        exact exec_arg isPrint hnl kv.1 kv.2 hv hk.ne_nil q e rest evs hq he hl
+      · obtain ⟨k, v⟩ := kv
+        simp only at hc
+        subst hc
+        obtain ⟨he1, he2, he3⟩ := he
+        simp only [evArgD, List.cons_append, List.nil_append]
+        rw [exec_field k q e rest _ hq he1]
+        obtain ⟨t, ht⟩ := ((ih c hn) { q with text := k, stack := { e with lastField := k } :: rest } evs).2.2
+          { e with lastField := k } rest rfl hk.ne_nil he2 he3 hl
+        refine ⟨t, ?_⟩
+        rw [ht]
+        congr 1
+        cases e
+        simp_all
     intro q evs
     -- common part: after startCall the new element e0 sits on top of q.stack
-    have body : ∀ (att : Attach),
+    have body : ∀ (att : Attach) (fin : Ev),
         startCall { q with text := name } name = { q with text := name, stack := { name := name, attach := att } :: q.stack } →
-        ∃ t, exec (evCallD isPrint (d + 1) (.mk name args children) ++ evs) q =
-          exec (.act .endCall :: evs)
+        ∃ t, exec ([.text name, .act (.startCall .text)] ++ children.flatMap (evCallD isPrint d) ++
+            args.flatMap (evArgD isPrint d) ++ (fin :: evs)) q =
+          exec (fin :: evs)
             { q with text := t,
                      stack := { name := name, attach := att, args := args, children := children } :: q.stack } := by
-      intro att hstart
+      intro att fin hstart
       have hs : stepAct { q with text := name } (.startCall .text) =
           .ok { q with text := name, stack := { name := name, attach := att } :: q.stack } := by
         simp only [stepAct, sargText]; rw [hstart]
       obtain ⟨t1, h1⟩ := exec_children isPrint d children hchs
         { q with text := name, stack := { name := name, attach := att } :: q.stack }
         { name := name, attach := att } q.stack
-        (args.flatMap (evArg isPrint) ++ (.act .endCall :: evs)) rfl rfl
-      obtain ⟨t2, h2⟩ := exec_args isPrint hnl args hargs hsorted
+        (args.flatMap (evArgD isPrint d) ++ (fin :: evs)) rfl rfl
+      obtain ⟨t2, h2⟩ := exec_args_gen (evArgD isPrint d) args hstep hsorted
         { q with text := t1, stack := { name := name, attach := att, children := children } :: q.stack }
-        { name := name, attach := att, children := children } q.stack (.act .endCall :: evs) rfl
+        { name := name, attach := att, children := children } q.stack (fin :: evs) rfl
         ⟨rfl, rfl, rfl⟩ (by simp [lookup])
       refine ⟨t2, ?_⟩
-      have e0 : exec (evCallD isPrint (d + 1) (.mk name args children) ++ evs) q =
-          exec (children.flatMap (evCallD isPrint d) ++ (args.flatMap (evArg isPrint) ++ (.act .endCall :: evs)))
+      have e0 : exec ([.text name, .act (.startCall .text)] ++ children.flatMap (evCallD isPrint d) ++
+            args.flatMap (evArgD isPrint d) ++ (fin :: evs)) q =
+          exec (children.flatMap (evCallD isPrint d) ++ (args.flatMap (evArgD isPrint d) ++ (fin :: evs)))
             { q with text := name, stack := { name := name, attach := att } :: q.stack } := by
-        simp only [evCallD, List.cons_append, List.nil_append, List.append_assoc]
+        simp only [List.cons_append, List.nil_append, List.append_assoc]
         rw [exec_text, exec_act_ok _ hs]
       rw [e0, h1]
       simp only [List.nil_append] at h2 ⊢
       rw [h2, foldl_insert_sorted args [] hsorted (by simp)]
       simp
-    constructor
+    have hD : ∀ evs', evCallD isPrint (d + 1) (.mk name args children) ++ evs' =
+        [.text name, .act (.startCall .text)] ++ children.flatMap (evCallD isPrint d) ++
+          args.flatMap (evArgD isPrint d) ++ (.act .endCall :: evs') := by
+      intro evs'; rw [evCallD_succ]; simp [List.append_assoc]
+    have hV : ∀ evs', evCallV isPrint (d + 1) (.mk name args children) ++ evs' =
+        [.text name, .act (.startCall .text)] ++ children.flatMap (evCallD isPrint d) ++
+          args.flatMap (evArgD isPrint d) ++ (.act (.addVal .endCall) :: evs') := by
+      intro evs'; rw [evCallV_succ]; simp [List.append_assoc]
+    refine ⟨?_, ?_, ?_⟩
     · intro hq
-      obtain ⟨t, ht⟩ := body .top (by simp [startCall, hq])
+      obtain ⟨t, ht⟩ := body .top (.act .endCall) (by simp [startCall, hq])
       refine ⟨t, ?_⟩
-      rw [ht]
+      rw [hD, ht]
       have hs : stepAct { q with text := t, stack := { name := name, attach := .top, args := args, children := children } :: q.stack } .endCall =
           .ok { q with calls := q.calls ++ [.mk name args children], text := t } := by
         simp [stepAct, endCall, Elem.toCall, hq]
         rfl
       exact exec_act_ok evs hs
     · intro p rest hq hp
-      obtain ⟨t, ht⟩ := body .child (by simp [startCall, hq, hp])
+      obtain ⟨t, ht⟩ := body .child (.act .endCall) (by simp [startCall, hq, hp])
       refine ⟨t, ?_⟩
-      rw [ht]
+      rw [hD, ht]
       have hs : stepAct { q with text := t, stack := { name := name, attach := .child, args := args, children := children } :: q.stack } .endCall =
           .ok { q with stack := { p with children := p.children ++ [.mk name args children] } :: rest, text := t } := by
         simp [stepAct, endCall, Elem.toCall, hq]
         rfl
+      exact exec_act_ok evs hs
+    · intro p rest hq hp hin hc hl
+      obtain ⟨t, ht⟩ := body .none (.act (.addVal .endCall)) (by simp [startCall, hq, hp])
+      refine ⟨t, ?_⟩
+      rw [hV, ht]
+      have hl' : (lookup p.lastField p.args).isSome = false := by simp [hl]
+      have hs : stepAct { q with text := t, stack := { name := name, attach := .none, args := args, children := children } :: q.stack }
+          (.addVal .endCall) =
+          .ok { q with stack := { p with args := insert p.lastField (.call (.mk name args children)) p.args,
+                                         lastField := [], lastCond := .ILLEGAL } :: rest, text := t } := by
+        simp [stepAct, endCall, Elem.toCall, hq, addVal, hp, hin, hc, hl', bind, Except.bind]
       exact exec_act_ok evs hs
 
 
